@@ -100,7 +100,9 @@ def stepRs (st : St) (kind : String) (args impl : List String) : Option (St × S
     let h ← (kv? rest "h").bind bytes?
     let p ← peer? rest
     pure ({ st with s := step st.c st.s (.update h p), anns := { h := h, p := p, t := st.s.now } :: st.anns },
-          { obs := ["ok"], branch := if p.ip.contains ':' then "update.colon" else "update.plain" })
+          { obs := ["ok"], branch :=
+              if st.anns.any (fun a => a.p.pid = p.pid ∧ (a.p.ip ≠ p.ip ∨ a.p.port ≠ p.port)) then "re-announce-same-id-different-port"
+              else if p.ip.contains ':' then "update.colon" else "update.plain" })
   | "get" :: rest => do
     let h ← (kv? rest "h").bind bytes?
     let n ← (kv? rest "n").bind String.toInt?
@@ -117,7 +119,11 @@ def stepRs (st : St) (kind : String) (args impl : List String) : Option (St × S
     let full := n ≥ (liveAll : Int) ∧ n ≥ (members : Int) ∧ n > 0
     let dropped := if full then live.filterMap fun a =>
         match implIds.find? (·.1 = idKey a.p) with
-        | none => some s!"side=impl key=peer-dropped announced {idKey a.p} is missing from GetPeers"
+        | none =>
+          -- the same peer id came back, but with another (earlier) address/port: a stale identity, not a lost peer
+          match implIds.find? (fun x => x.1.startsWith (hexOf a.p.pid ++ "|")) with
+          | some (k, _) => some s!"side=impl key=roundtrip-stale-identity announced {idKey a.p} is missing from GetPeers, which returned {k} for that peer id"
+          | none => some s!"side=impl key=peer-dropped announced {idKey a.p} is missing from GetPeers"
         | some (_, c) => if a.p.complete ∧ c ≠ "1" then some s!"side=impl key=complete-lost {idKey a.p} announced complete, returned incomplete" else none
       else []
     let phantom := implIds.filterMap fun (k, c) =>
